@@ -30,8 +30,14 @@ BoundDeclared(decl, ty, what) == \E i \in DOMAIN decl : decl[i].ty = ty /\ decl[
 AllUnit(item) == \A j \in DOMAIN item.variants : item.variants[j].shape = "unit"
 StringNewtype(item) == item.kind = "struct" /\ item.shape = "tuple" /\ Len(item.fields) = 1
                        /\ item.fields[1].ty = "::std::string::String"
+(* a trait listed twice in one derive attribute: two conflicting impls (E0119), so the type has
+   none of its promised traits; decidable from the rendered item alone *)
+DerivedTwice(item) == \E a, b \in DOMAIN item.derives : a < b /\ item.derives[a] = item.derives[b]
+C19_DeriveBad(items) ==
+    { i \in DOMAIN items : items[i].mod = "" /\ items[i].kind \in {"struct", "enum"} /\ DerivedTwice(items[i]) }
 C19_ItemDiag(item, decl, failed) ==
     IF item.vis # "pub" THEN "C19/NotPublic"
+    ELSE IF DerivedTwice(item) THEN "C19/TraitDerivedTwice"
     ELSE IF BoundDeclared(decl, item.name, "promised") /\ ~BoundHolds(decl, failed, item.name, "promised")
          THEN "C19/PromisedTraitMissing"
     ELSE IF item.kind = "enum" /\ AllUnit(item) /\ BoundDeclared(decl, item.name, "copy")
@@ -84,8 +90,25 @@ NewtypeAgrees(row, item, rows) ==
 BuilderItems(items, name) == { i \in DOMAIN items : items[i].mod = "builder" /\ items[i].name = name
                                                       /\ items[i].kind = "struct" }
 
+(* every path mentioned by a reported identifier (ident() and parameter_ident(), of named and
+   of unnamed types alike: options, vectors, maps, boxes, tuples, arrays) resolves from outside
+   the configured module: an absolute path, a primitive, a caller-supplied crate-relative path,
+   or a generated top-level item reached through the configured module *)
+Prims == {"bool", "i8", "i16", "i32", "i64", "i128", "u8", "u16", "u32", "u64", "u128", "isize", "usize",
+          "f32", "f64", "str", "String", "char", "Option", "Vec", "Box", "Result"}
+PathResolves(p, items, typeMod) ==
+    \/ p.abs
+    \/ Len(p.segs) = 1 /\ p.segs[1] \in Prims
+    \/ p.segs[1] \in {"crate", "super", "self"}
+    \/ typeMod = "" /\ Len(p.segs) = 1 /\ TopItems(items, p.segs[1]) # {}
+    \/ typeMod # "" /\ Len(p.segs) = 2 /\ p.segs[1] = typeMod /\ TopItems(items, p.segs[2]) # {}
+IdentPathsResolve(row, items, typeMod) ==
+    /\ \A j \in DOMAIN row.ident_paths : PathResolves(row.ident_paths[j], items, typeMod)
+    /\ \A j \in DOMAIN row.param_paths : PathResolves(row.param_paths[j], items, typeMod)
+
 C17_RowDiag(row, rows, items, decl, failed, typeMod) ==
-    IF row.kind \notin NamedKinds THEN "ok"
+    IF ~IdentPathsResolve(row, items, typeMod) THEN "C17/IdentPathDoesNotResolve"
+    ELSE IF row.kind \notin NamedKinds THEN "ok"
     ELSE IF Cardinality(TopItems(items, row.name)) = 0 THEN "C17/NameDoesNotResolve"
     ELSE IF row.ident # ExpectedIdent(typeMod, row.name) THEN "C17/IdentNotInConfiguredModule"
     ELSE LET item == items[CHOOSE i \in TopItems(items, row.name) : TRUE] IN
